@@ -40,9 +40,12 @@ func Verif_H15BS() {
 			vrt.Assume(!bytes.Equal(mhs[i], mhs[j]))
 		}
 	}
+	// blocks are stored under a chosen codec; lookups and deletes go through another
+	// codec (CIDs differing only in codec address the same block)
 	mkCid := func(i int) cid.Cid {
 		return cid.NewCidV1(codecs[vrt.Choose("codec", len(codecs))], mhs[i])
 	}
+	lookupCid := func(i int) cid.Cid { return cid.NewCidV1(cid.DagProtobuf, mhs[i]) }
 	// block bytes: honest (equal to the identity digest) or arbitrary bytes of the same length
 	mkData := func(i int) []byte {
 		// symbolic bytes of the digest's length (free to equal the digest: an honest
@@ -52,8 +55,12 @@ func Verif_H15BS() {
 		}
 		return vrt.Bytes("blockdata", L)
 	}
+	// cancelled contexts are exercised by a dedicated operation kind (case 7) instead of a
+	// two-way choice inside every operation
+	cancelNext := false
 	mkCtx := func() (context.Context, bool) {
-		if vrt.Choose("ctx-cancelled", 2) == 1 {
+		if cancelNext {
+			cancelNext = false
 			ctx, cancel := context.WithCancel(context.Background())
 			cancel()
 			return ctx, true
@@ -97,7 +104,12 @@ func Verif_H15BS() {
 
 	n := vrt.Param("ops", 3)
 	for step := 0; step < n; step++ {
-		switch vrt.Choose("op", 7) {
+		op := vrt.Choose("op", 8)
+		if op == 7 { // the same kinds again, with a cancelled context
+			cancelNext = true
+			op = []int{0, 2, 4}[vrt.Choose("cancelled-op", 3)] // Put, Get, DeleteBlock
+		}
+		switch op {
 		case 0: // Put
 			i := vrt.Choose("digest-index", K)
 			c := mkCid(i)
@@ -122,8 +134,8 @@ func Verif_H15BS() {
 			var datas [][]byte
 			for k := 0; k < 2; k++ {
 				i := vrt.Choose("digest-index", K)
-				data := mkData(i)
-				blk, _ := blocks.NewBlockWithCid(data, mkCid(i))
+				data := vrt.Bytes("blockdata", L)
+				blk, _ := blocks.NewBlockWithCid(data, cid.NewCidV1(cid.Raw, mhs[i]))
 				blks = append(blks, blk)
 				idx = append(idx, i)
 				datas = append(datas, data)
@@ -142,7 +154,7 @@ func Verif_H15BS() {
 			}
 		case 2: // Get (possibly through a different codec than the one stored under)
 			i := vrt.Choose("digest-index", K)
-			c := mkCid(i)
+			c := lookupCid(i)
 			ctx, cancelled := mkCtx()
 			if cancelled {
 				_, err := bs.Get(ctx, c)
@@ -152,7 +164,7 @@ func Verif_H15BS() {
 			}
 		case 3:
 			i := vrt.Choose("digest-index", K)
-			c := mkCid(i)
+			c := lookupCid(i)
 			ctx, cancelled := mkCtx()
 			if cancelled {
 				_, err := bs.Has(ctx, c)
@@ -164,7 +176,7 @@ func Verif_H15BS() {
 			}
 		case 4: // DeleteBlock
 			i := vrt.Choose("digest-index", K)
-			c := mkCid(i)
+			c := lookupCid(i)
 			ctx, cancelled := mkCtx()
 			err := bs.DeleteBlock(ctx, c)
 			if cancelled {
